@@ -53,6 +53,12 @@ def run(tier, seed):
     r.add_tlc('liveness Terminates', res)
     if res.violated:
         raise pipeline.MachineryFailure('model does not terminate: %s' % res.error)
+    # code -> spec: random long scenarios, each recorded execution validated by TLC as a behaviour of Lomond.tla, and judged
+    from .. import tracevalid
+    extra_traces = []
+    for cfgname, cfg in (('CfgIdle', IDLE), ('CfgTimers', TIMERS)):
+        scs, logs, acc = tracevalid.validate(r, tier, cfgname, cfg, 300 if tier == 'quick' else 3000)
+        extra_traces.extend(zip(scs, logs))
     results, rej = sessprop.run_model_instances(r, 'MC_C07', 'Mon_C07', insts, kinds={'ev', 'stop', 'escape', 'hang'},
                                                 max_exec=None if tier == 'quick' else 40000)
     seqs = set()
@@ -67,6 +73,13 @@ def run(tier, seed):
     r.exhaustive = tier == 'quick'
     for label, b, sc, log in results[:3]:
         r.samples.append({"instance": label, "scenario": sc, "events": [x['name'] for x in log if x['k'] == 'ev']})
+    rej2, st2, _ = pipeline.judge('Mon_C07', [{"id": i, "tr": sessprop.slim(l, {'ev', 'stop', 'escape', 'hang'})} for i, (s_, l) in enumerate(extra_traces)])
+    r.states += st2
+    r.evaluations += len(extra_traces)
+    r.traces += len(extra_traces)
+    for tid, clause in rej2:
+        r.violation(clause, {"instance": "random-script", "scenario": extra_traces[tid][0],
+                             "trace": sessprop.slim(extra_traces[tid][1], {'ev', 'stop', 'escape', 'hang', 'call', 'wr'})})
     for tid, clause in rej:
         label, b, sc, log = results[tid]
         r.violation(clause, {"instance": label, "scenario": sc, "trace": sessprop.slim(log, {'ev', 'stop', 'escape', 'hang', 'call', 'wr'})})
